@@ -352,7 +352,7 @@ func newEnv(n int, thr uint32, idSeed uint64) *env {
 		panic(err)
 	}
 	v := &env{dir: dir, rec: &recorder{}, byID: map[string]int{}, idr: newRng(idSeed)}
-	v.e = engine.New(engine.WithLogger(zap.NewNop()), engine.WithErrorThreshold(thr))
+	v.e = engine.New(engine.WithLogger(engineLogger()), engine.WithErrorThreshold(thr))
 	for i := 0; i < n; i++ {
 		v.addShard()
 	}
@@ -651,6 +651,7 @@ type history struct {
 	Objs []*uobj `json:"objs"`
 	Ops  []op    `json:"ops"`
 	Note string  `json:"note,omitempty"`
+	Rank []int   `json:"rank,omitempty"` // universe indices ordered by raw object ID
 }
 
 func emit(x any) {
